@@ -203,3 +203,38 @@ Proof.
   unfold wake_beat_of, sched_abs_nrt, play_beat, py_play. cbn [p_secs]. cbv zeta.
   apply secs_of_beats_inv; assumption.
 Qed.
+
+(* ---- a routine that yields a number: woken (due at p), it runs while the clock goes through h1 (its own changes),
+   yields d, sleeps while the clock goes through h2 (changes made by other routines), and wakes d beats after the
+   beat it woke at ---- *)
+Lemma yield_advances s p d h1 h2 : WF s -> 0 < toQ (tempo s) -> Forall op_ok h1 -> Forall op_ok h2 ->
+  ok (p_beats p) -> ok d -> p_secs p = py_beats2secs s (p_beats p) ->
+  val (wake_beat_of s p) (toQ (p_beats p)) /\
+  exists s1 s2 q, run s h1 = Some s1 /\ run_pend s1 h2 (resched s1 (wake_beat_of s p) d) = Some (s2, q) /\
+    run s1 h2 = Some s2 /\ WF s2 /\
+    p_secs q = py_beats2secs s2 (p_beats q) /\
+    val (p_beats q) (toQ (p_beats p) + toQ d) /\
+    val (wake_beat_of s2 q) (toQ (p_beats p) + toQ d) /\
+    (forall now', ok now' -> toQ (py_beats s2 now') <= toQ (p_beats q) -> toQ now' <= toQ (p_secs q)).
+Proof.
+  intros W Ht F1 F2 Kb Kd Hp.
+  assert (Vw : val (wake_beat_of s p) (toQ (p_beats p))).
+  { unfold wake_beat_of. rewrite Hp. destruct W as (Ty & TI & _). apply secs_of_beats_inv; assumption. }
+  split; [exact Vw|].
+  destruct (run_wf h1 s W Ht F1) as (s1 & E1 & W1 & T1).
+  set (wb := wake_beat_of s p) in *.
+  pose proof (val_nadd _ _ _ _ Vw (val_refl _ Kd)) as Vb.
+  destruct (run_pend_inv h2 s1 (resched s1 wb d) W1 T1 F2 eq_refl) as (s2 & q & R & R' & W2 & T2 & B2 & S2).
+  cbn [resched sched_abs_nrt p_beats] in B2, S2.
+  exists s1, s2, q. split; [exact E1|]. split; [exact R|]. split; [exact R'|]. split; [exact W2|].
+  split; [rewrite B2; exact S2|]. split; [rewrite B2; exact Vb|].
+  destruct W2 as (Ty2 & TI2 & MI2). split.
+  - unfold wake_beat_of. rewrite S2. eapply val_eq.
+    + apply secs_of_beats_inv; [exact Ty2|exact TI2|exact (val_ok _ _ Vb)].
+    + exact (val_toQ _ _ Vb).
+  - intros now' Hn L. rewrite S2, B2 in *.
+    pose proof (val_toQ _ _ (beats_of_secs_inv s2 now' Ty2 TI2 Hn)) as Q. fold (py_beats s2 now') in Q.
+    rewrite <- Q. apply b2s_monotone; try assumption.
+    + exact (val_ok _ _ (s2b_val s2 now' (toQ now') Ty2 (val_refl _ Hn))).
+    + exact (val_ok _ _ Vb).
+Qed.
